@@ -35,6 +35,8 @@ class World:
         I.call_hooks["allocate_on_buffer"] = self.h_allocate
         I.call_hooks["_to_slot_size"] = self.h_slot
         self.alloc_pos = Sym(Poly.atom("off"))
+        self.private_buffers = True
+        self.zero_fill = False  # opt-in (with copy_bytes): reads of never-written bytes give zeros
         self.polys = {}  # key -> position polynomial of the words stored through the scalar hooks
         self.copy_bytes = False  # opt-in: buffer-to-buffer copies carry the known words of the source range along
 
@@ -60,8 +62,12 @@ class World:
             return (buf, given)
         n = sum(1 for e in I.effects if e.kind == "alloc")
         pos = self.alloc_pos if n == 0 else Sym(Poly.atom(f"off{n}"))
-        I.effects.append(Effect("alloc", size=size, pos=pos, buf=(buf if isinstance(buf, Obj) else self.buffer)))
-        return (buf if isinstance(buf, Obj) else self.buffer, pos)
+        if not isinstance(buf, Obj):
+            # no buffer given: the library creates a NEW buffer on the (default) context -- never the buffer of any
+            # existing object (`x._buffer is buffer` is false for such temporaries, e.g. default field values)
+            buf = self.mk_buffer(f"private{n}") if self.private_buffers else self.buffer
+        I.effects.append(Effect("alloc", size=size, pos=pos, buf=buf))
+        return (buf, pos)
 
     def _size(self, I, scalar):
         return I.getattr(scalar, "_size")
@@ -138,6 +144,9 @@ class World:
                     ent = I.mem.get("#bytes", {}).get(repr(topoly(a[0])))
                     if ent is not None and len(ent[1]) >= topoly(a[1]).const_value():
                         return bytearray(ent[1][: topoly(a[1]).const_value()])
+                    if ent is None and self.zero_fill and not any(pp is not None and (pp - topoly(a[0])).is_const() and 0 <= (pp - topoly(a[0])).const_value() < topoly(a[1]).const_value() for pp in ([e_[0] for e_ in I.mem.get("#bytes", {}).values()] + [self.polys.get(k_) for k_ in I.mem if k_ != "#bytes"])):
+                        # never-written storage of a fresh buffer (no free / reuse in this world) is zero
+                        return bytearray(topoly(a[1]).const_value())
                 if kind == "update_from_xbuffer" and self.copy_bytes and len(a) == 4:
                     dst, src, nb = topoly(a[0]), topoly(a[2]), topoly(a[3])
                     if dst is not None and src is not None and nb is not None and nb.is_const():
